@@ -70,6 +70,9 @@ func (x *Exec) doCall(st *State, fr *Frame, in ssa.Instruction, call *ssa.CallCo
 					s2.lastRes = map[string]Val{}
 				}
 				s2.lastRes[cname] = o.Vals[0]
+				for i := 1; i < len(o.Vals); i++ {
+					s2.lastRes[cname+"#"+strconv.Itoa(i)] = o.Vals[i]
+				}
 			}
 			k0(s2, o)
 		}
